@@ -228,3 +228,17 @@ PROPS["C13"] = {
     "level_note": "Bounds in evidence. Trusted: go/ssa, gosym map model, z3.",
     "technique": "symbolic execution of the go/ssa form with map iteration order as nondeterministic choice variables (one loop at a time), differential against the insertion-order run",
 }
+
+# ---------------------------------------------------------------- C17
+PROPS["C17"] = {
+    "jobs": [
+        Job("parse", "H_roundLeaf", "0..18,0..6", workers=8),
+        Job("parse", "H_roundOps", "0..16,0..16,0..2", workers=16),
+        Job("parse", "H_roundPrint", "0..18,0..3", workers=8),
+    ],
+    "bounds": "expression trees: every leaf kind (ints incl. negative and 2^53, floats incl. integral and exponent forms, bool, null, strings of 1 symbolic byte quoted by the real quoteString, data references with every access kind, globals, function calls, list and map literals, empty literals) alone and under negate/not/index/call/list/map wrappers; every operator (14 binary, 2 unary, ternary) over every operator in every operand position (depth 2); print commands with 0..2 directives with arguments",
+    "outside": "nesting depth > 2 of operators (parenthesisation is decided pairwise, so depth 2 covers each parent/child combination once); strings longer than 1 byte",
+    "assumptions": ["sameTree (harness): structural equality ignoring positions and the Quoted/Name presentation fields"],
+    "level_text": "Bounded symbolic model checking over expression trees enumerated up to depth 2 with symbolic string bytes: print with the real String methods, parse with the real parser, compare structurally.",
+    "level_note": "Bounds in evidence. Trusted: go/ssa, gosym, z3, sameTree.",
+}
